@@ -90,7 +90,10 @@ type c10Truth struct {
 	spec      c10Pod
 	name      string
 	uid       types.UID
-	deadlines []time.Time // non-nil deadlines the pod was ever queued under
+	deadlines []time.Time // non-nil deadlines of every drain pass that found or put the pod in the queue (a superset of what the queue was told)
+	// certain: deadlines the queue was certainly told for this pod: the drain pass put it into the queue, queued it for
+	// direct deletion, or it belongs to the tier that every pass hands over (non-critical, non-daemon)
+	certain []time.Time
 	nilQueued bool
 }
 
@@ -384,6 +387,9 @@ func runC10(s *c10Scenario, faultIdx, faultKind int) *c10Run {
 				if q.Has(l.pod) {
 					if deadline != nil {
 						l.tr.deadlines = append(l.tr.deadlines, *deadline)
+						if l.waiting && (newly || l.deleteElig || (!l.tr.spec.Critical && !l.tr.spec.Daemon)) {
+							l.tr.certain = append(l.tr.certain, *deadline)
+						}
 					} else {
 						l.tr.nilQueued = true
 					}
@@ -417,9 +423,9 @@ func runC10(s *c10Scenario, faultIdx, faultKind int) *c10Run {
 			// a running pod that was queued under a deadline is deleted directly by the first reconcile after that
 			// deadline minus its grace period has passed, however often it was re-queued under later deadlines since
 			due := false
-			if ctr := truth[cur.UID]; ctr != nil && faultIdx == 0 && active(cur) && len(ctr.deadlines) > 0 && cur.Spec.TerminationGracePeriodSeconds != nil {
-				eff := ctr.deadlines[0]
-				for _, d := range ctr.deadlines {
+			if ctr := truth[cur.UID]; ctr != nil && faultIdx == 0 && active(cur) && len(ctr.certain) > 0 && cur.Spec.TerminationGracePeriodSeconds != nil {
+				eff := ctr.certain[0]
+				for _, d := range ctr.certain {
 					if d.Before(eff) {
 						eff = d
 					}
@@ -482,7 +488,7 @@ func runC10(s *c10Scenario, faultIdx, faultKind int) *c10Run {
 		// the deadline guarantee covers a pod for as long as it stays queued; once handled and dequeued it starts afresh
 		for _, tr := range byIdx {
 			if cur := getPod(tr.name); cur == nil || cur.UID != tr.uid || (!q.Has(cur) && !active(cur)) {
-				tr.deadlines, tr.nilQueued = nil, false
+				tr.deadlines, tr.certain, tr.nilQueued = nil, nil, false
 			}
 		}
 	}
